@@ -161,6 +161,106 @@ fn sweep_constants(rep: &Reporter, c: &Counters) -> (u64, u64) {
     (spelled.load(Ordering::Relaxed), executed.load(Ordering::Relaxed))
 }
 
+/// "offset label can be used in place of a number" (syntax.md): for every position that takes a constant, and
+/// every label offset of the constant's class, the program written with `offset l` must assemble to exactly
+/// what the program written with the decimal number gives (code, print statements and data). Two layouts:
+/// the label in the default segment, and in a segment opened by a non-zero `set` (the offset is counted from
+/// the start of that segment either way).
+fn sweep_offsets(rep: &Reporter, c: &Counters, thorough: bool) -> u64 {
+    let compared = AtomicU64::new(0);
+    let accepted: Vec<AtomicU64> = (0..64).map(|_| AtomicU64::new(0)).collect();
+    // (template, class: 8 = byte constant, 16 = word constant); `{}` is the constant, `{x}` a label defined after it
+    let templates: Vec<(&str, u32)> = vec![
+        ("start:\nmov bl, {}\n", 8),
+        ("start:\nadd al, {}\n", 8),
+        ("start:\nadc byte [bx], {}\n", 8),
+        ("start:\nsub dh, {}\n", 8),
+        ("start:\nsbb byte [0x10], {}\n", 8),
+        ("start:\ncmp cl, {}\n", 8),
+        ("start:\ncmp byte es [si, 2], {}\n", 8),
+        ("start:\nmov byte [di], {}\n", 8),
+        ("start:\nand cl, {}\n", 8),
+        ("start:\nor byte [si], {}\n", 8),
+        ("start:\nxor al, {}\n", 8),
+        ("start:\ntest bl, {}\n", 8),
+        ("start:\nshl ax, {}\n", 8),
+        ("start:\nrcr byte [bx], {}\n", 8),
+        ("vx: db {}\nstart:\nmov al, byte vx\n", 8),
+        ("vx: db [{}, 2]\nstart:\nmov al, byte vx\n", 8),
+        ("vx: db [7, {}]\nstart:\nmov al, byte vx\n", 8),
+        ("vx: db 1\nstart:\nadd byte vx, {}\n", 8),
+        ("vx: db 1\nstart:\nand byte vx, {}\n", 8),
+        ("start:\nmov ax, {}\n", 16),
+        ("start:\nadd bx, {}\n", 16),
+        ("start:\ncmp word [bx], {}\n", 16),
+        ("start:\nand dx, {}\n", 16),
+        ("start:\nmov word [bp, si], {}\n", 16),
+        ("vx: dw {}\nstart:\nmov ax, word vx\n", 16),
+        ("vx: dw [{}, 2]\nstart:\nmov ax, word vx\n", 16),
+        ("start:\nmov al, byte [{}]\n", 16),
+        ("start:\nmov ax, word [bx, {}]\n", 16),
+        ("start:\nmov ax, word [bp, di, {}]\n", 16),
+        ("start:\nprint mem {} : 3\n", 16),
+        ("start:\nprint mem 0 -> {}\n", 16),
+        ("start:\nprint mem {} -> 70000\n", 16),
+        ("start:\nprint mem 5 : {}\n", 16),
+        ("start:\nprint mem : {}\n", 16),
+        ("start:\nprint mem {} : {}\n", 16),
+    ];
+    let byte_offsets: Vec<u32> = (0..256).collect();
+    let mut word_offsets: Vec<u32> = (0..=300).collect();
+    word_offsets.extend([511, 512, 513, 1000, 4095, 4096, 4097, 12345, 32766, 32767, 32768, 32769, 40000, 65533, 65534]);
+    if thorough {
+        word_offsets.extend((301..65534).step_by(97));
+    }
+    let layouts: [(&str, &str); 3] = [("", "label in the default segment"), ("set 0x20\n", "label in a segment opened by set 0x20"), ("set 0x20\ndb 1\nset 0x1234\n", "label after two sets")];
+    let work: Vec<(usize, u32, usize)> = templates
+        .iter()
+        .enumerate()
+        .flat_map(|(ti, (_, class))| {
+            let offs = if *class == 8 { byte_offsets.clone() } else { word_offsets.clone() };
+            offs.into_iter().flat_map(move |o| (0..3usize).map(move |l| (ti, o, l)))
+        })
+        .collect();
+    work.par_iter().for_each(|(ti, o, l)| {
+        let (tmpl, _) = templates[*ti];
+        let (lay, lname) = layouts[*l];
+        // `ofs` gets offset o: o filler bytes first (in at most two definitions, a count of 0 is left out)
+        let filler = if *o == 0 { String::new() } else { format!("db [{}]\n", o) };
+        let head = format!("{}{}ofs: db 0\n", lay, filler);
+        let with_offset = format!("{}{}", head, tmpl.replace("{}", "offset ofs"));
+        let with_number = format!("{}{}", head, tmpl.replace("{}", &o.to_string()));
+        let a = assemble(&with_offset);
+        let b = assemble(&with_number);
+        compared.fetch_add(1, Ordering::Relaxed);
+        c.add_exec(2);
+        let site = format!("offset / {}", tmpl.trim_end().replace('\n', " | "));
+        match (a, b) {
+            (Ok(a), Ok(b)) => {
+                accepted[*ti].fetch_add(1, Ordering::Relaxed);
+                if a.code != b.code || a.data != b.data {
+                    let (x, y) = if a.code != b.code { (format!("{:?}", b.code), format!("{:?}", a.code)) } else { ("the same data lines".to_string(), "different data lines".to_string()) };
+                    rep.report(Viol { site, field: "offset-output".into(), vars: vec![("v".into(), *o as i64), ("layout".into(), *l as i64)], got_val: None, expected: format!("what the decimal number gives: {}", x), got: format!("{} ({})", y, lname), case: json!({"src": with_offset, "canonical_src": with_number}), weight: *o as u64 });
+                }
+            }
+            (Err(e), Ok(_)) => {
+                rep.report(Viol { site, field: "offset-rejected".into(), vars: vec![("v".into(), *o as i64), ("layout".into(), *l as i64)], got_val: None, expected: "offset of a label is accepted wherever its value is accepted as a number".into(), got: format!("{:?} ({})", e, lname), case: json!({"src": with_offset, "canonical_src": with_number}), weight: *o as u64 });
+            }
+            (Ok(_), Err(e)) => {
+                rep.report(Viol { site, field: "offset-accepted".into(), vars: vec![("v".into(), *o as i64), ("layout".into(), *l as i64)], got_val: None, expected: format!("refused like the number itself: {:?}", e), got: format!("accepted ({})", lname), case: json!({"src": with_offset, "canonical_src": with_number}), weight: *o as u64 });
+            }
+            (Err(_), Err(_)) => {}
+        }
+    });
+    for (ti, (t, _)) in templates.iter().enumerate() {
+        if accepted[ti].load(Ordering::Relaxed) == 0 {
+            eprintln!("MACHINERY: C11 offset sweep: no accepted pair for template {:?} (vacuous)", t);
+            std::process::exit(2);
+        }
+    }
+    compared.load(Ordering::Relaxed)
+}
+
 /// execute the single emitted instruction and check that it carries the number `v`
 fn exec_const(rep: &Reporter, c: &Counters, wk: &mut Worker, m: &crate::pipe::Machine, asm: &Asm, tmpl: &str, class: u8, v: u32, src: &str, executed: &AtomicU64) {
     if asm.code.len() != 1 {
@@ -555,11 +655,12 @@ pub fn run(tier: &Tier) -> i32 {
         }
     });
     let (const_spellings, const_execs) = sweep_constants(rep, c);
+    let offset_pairs = sweep_offsets(rep, c, tier.thorough);
     c.states.fetch_add(respellings.load(Ordering::Relaxed), Ordering::Relaxed);
     let mut cov = Coverage::default();
     cov.exhaustive = true;
-    cov.rule = "for every shape of the syntax.md catalog: (a) the line the real Preprocessor emits, executed by the real Interpreter on two distinguishing machine states, has the effect the reference computes for the AST instruction (same operation, operand roles, constants); (b) EVERY single spelling deviation of the canonical rendering - each keyword token in upper case, each constant in 0x / 0X / 0b / negative decimal / leading zeros / OFFSET of a label with that offset, each gap as tab / newline / several spaces / blank lines / CRLF / an extra space - must assemble to the identical instruction list; (c) one emitted instruction per source instruction and all ordered triples of 8 distinguishable instructions keep order; (d) labels differing only in case are different labels; (e) 8 comment placements and 20 troublesome comment texts (unbalanced quotes, semicolons, brackets, arrows, keywords, non-ASCII) in 3 placements each through the CLI binary behave like the uncommented program; (f) EVERY constant of a class in every radix: all 65536 word immediates (two instructions), all 256 byte immediates, all 65536 direct addresses (two instructions) and all 65536 displacements, spelled in decimal, 0x, 0X, 0b, with leading zeros and as the negative decimal with the same bit pattern: the emitted instruction equals the decimal spelling's and, executed by the real Interpreter, carries exactly that number".into();
-    cov.bounds = json!({"catalog_shapes": cat.len(), "respellings": respellings.load(Ordering::Relaxed), "semantic_executions": semantic.load(Ordering::Relaxed), "triples": triples.len(), "constant_spellings": const_spellings, "constant_executions": const_execs, "comment_variants": variants.len(), "tier": tier.name()});
+    cov.rule = "for every shape of the syntax.md catalog: (a) the line the real Preprocessor emits, executed by the real Interpreter on two distinguishing machine states, has the effect the reference computes for the AST instruction (same operation, operand roles, constants); (b) EVERY single spelling deviation of the canonical rendering - each keyword token in upper case, each constant in 0x / 0X / 0b / negative decimal / leading zeros / OFFSET of a label with that offset, each gap as tab / newline / several spaces / blank lines / CRLF / an extra space - must assemble to the identical instruction list; (c) one emitted instruction per source instruction and all ordered triples of 8 distinguishable instructions keep order; (d) labels differing only in case are different labels; (e) 8 comment placements and 20 troublesome comment texts (unbalanced quotes, semicolons, brackets, arrows, keywords, non-ASCII) in 3 placements each through the CLI binary behave like the uncommented program; (f) EVERY constant of a class in every radix: all 65536 word immediates (two instructions), all 256 byte immediates, all 65536 direct addresses (two instructions) and all 65536 displacements, spelled in decimal, 0x, 0X, 0b, with leading zeros and as the negative decimal with the same bit pattern: the emitted instruction equals the decimal spelling's and, executed by the real Interpreter, carries exactly that number. OFFSET in place of a number: 35 constant positions (byte and word immediates of arithmetic / logic / mov / shift counts, DB/DW values and counts, direct addresses and displacements, every print mem form) x every label offset 0..255 (byte positions) / 316 word offsets (thorough: 990) x 3 layouts (default segment, after a non-zero set, after two sets): the program must assemble to exactly what the decimal number gives".into();
+    cov.bounds = json!({"catalog_shapes": cat.len(), "respellings": respellings.load(Ordering::Relaxed), "semantic_executions": semantic.load(Ordering::Relaxed), "triples": triples.len(), "offset_number_pairs": offset_pairs, "constant_spellings": const_spellings, "constant_executions": const_execs, "comment_variants": variants.len(), "tier": tier.name()});
     cov.assumptions = common_assumptions();
     cov.cli_runs = CLI_RUNS.load(Ordering::Relaxed);
     cov.distinct_nontrivial = respellings.load(Ordering::Relaxed);
